@@ -30,7 +30,7 @@ import (
 // the Go race detector evaluated on the simulated interleaving (race build).
 
 var concFaults = []string{"preempt", "lock-contended", "curve-first-use", "close-during-write", "rotation-during-handshake", "pct-schedule", "dense-preemption", "transport-write-blocks"}
-var concReach = []string{"block-shared", "pkg-sign", "pkg-encrypt", "pkg-hash", "pkg-sm4", "pkg-parse", "pkg-pkcs7-ber", "pkg-verify-chain", "cache-linearizable", "cache-eviction", "pool-verify", "conn-linearizable", "conn-close-raced", "write-after-close-failed", "config-handshakes", "config-rotated", "config-resumed", "config-followup-resumption-owed", "config-rotation-inside-ticket-code", "conn-multi-record-writes", "tasks>=8", "tasks>=16", "porcupine-unknown"}
+var concReach = []string{"block-shared", "pkg-sign", "pkg-encrypt", "pkg-hash", "pkg-sm4", "pkg-parse", "pkg-pkcs7-ber", "pkg-verify-chain", "cache-linearizable", "cache-eviction", "pool-verify", "conn-linearizable", "conn-close-raced", "write-after-close-failed", "config-handshakes", "config-rotated", "config-resumed", "config-followup-resumption-owed", "config-rotation-inside-ticket-code", "conn-multi-record-writes", "conn-write-inside-last-flight", "tasks>=8", "tasks>=16", "porcupine-unknown"}
 
 func init() {
 	for i, p := range []struct {
@@ -780,18 +780,48 @@ func runConcConn(c *simkit.Choice, r *simkit.Rec) {
 	// a slow peer: small finite windows make transport writes block half-way, so
 	// that other tasks of the same endpoint run while a flight is being written
 	var netC, netS simkit.NetCfg
-	netC.Capture = true
+	netC.Capture, netS.Capture = true, true
 	// late writer: the server-side writer makes its first call only once the
 	// client's ChangeCipherSpec is on the wire (plus a drawn number of yields), i.e.
 	// while the server is about to send, or is sending, its last flight
 	lateWriter := c.Bool(1, 2, simkit.LScen)
 	lateExtra := c.Range(0, 400, simkit.LScen)
+	// ... or only once the server's own ChangeCipherSpec is on the wire, and then
+	// without being interrupted (the call falls inside the server's last transport write)
+	lateOnOwnFlight := c.Bool(1, 2, simkit.LScen)
+	var lateFired atomic.Bool
+	var lateTask atomic.Value // *simkit.Task
+	lateGo := &simkit.Flag{Name: "late-writer-go"}
 	if c.Bool(1, 3, simkit.LScen) {
 		netC.Window = c.Range(8, 300, simkit.LScen)
 		netS.Window = c.Range(8, 300, simkit.LScen)
 		r.Fault(idx(concFaults, "transport-write-blocks"))
 	}
 	a, b := s.NewConnPair("cli", "srv", netC, netS)
+	if lateWriter {
+		hasCCS := func(buf []byte) bool {
+			recs, _ := reftls.ParseRecords(buf)
+			for _, rc := range recs {
+				if rc.Type == reftls.RecCCS {
+					return true
+				}
+			}
+			return false
+		}
+		trig := a.WrPipe() // the client's ChangeCipherSpec goes out
+		if lateOnOwnFlight {
+			trig = b.WrPipe() // the server's own last flight goes out
+		}
+		trig.OnWrite = func(buf []byte) {
+			if lateGo.IsSet() || !hasCCS(buf) {
+				return
+			}
+			lateGo.Set()
+			if t, ok := lateTask.Load().(*simkit.Task); ok && lateOnOwnFlight {
+				s.Boost(t)
+			}
+		}
+	}
 	ccfg := &gmtls.Config{GMSupport: gmtls.NewGMSupport(), Rand: entC, Time: simTime(s, 0), RootCAs: pki.Pool("caA"), ServerName: "server.sim", CipherSuites: []uint16{suite}, SessionTicketsDisabled: true}
 	scfg := &gmtls.Config{GMSupport: gmtls.NewGMSupport(), Rand: entS, Time: simTime(s, 0), Certificates: gmServerCerts("srv-sign", "srv-enc"), CipherSuites: []uint16{suite}, SessionTicketsDisabled: true}
 	conns := [2]*gmtls.Conn{gmtls.Client(a, ccfg), gmtls.Server(b, scfg)}
@@ -890,22 +920,19 @@ func runConcConn(c *simkit.Choice, r *simkit.Rec) {
 				wdone = append(wdone, f)
 				s.Spawn(fmt.Sprintf("%s-w%d", []string{"cli", "srv"}[side], w), side, func() {
 					defer f.Set()
+					boosted := false
 					if side == 1 && lateWriter {
-						for k := 0; k < 200000; k++ {
-							recs, _ := reftls.ParseRecords(a.WrPipe().Captured())
-							seen := false
-							for _, rc := range recs {
-								if rc.Type == reftls.RecCCS {
-									seen = true
-								}
+						// (blocks on a flag set from the transport's OnWrite hook: no spinning,
+						// which would never end under a policy without preemption)
+						lateTask.Store(s.CurTask())
+						s.WaitFlag(lateGo)
+						if lateOnOwnFlight {
+							boosted = true // the hook has boosted this task
+							lateFired.Store(true)
+						} else {
+							for k := 0; k < lateExtra; k++ {
+								simkit.Yield(-27)
 							}
-							if seen {
-								break
-							}
-							simkit.Yield(-27)
-						}
-						for k := 0; k < lateExtra; k++ {
-							simkit.Yield(-27)
 						}
 					}
 					for _, buf := range wp[side][w].bufs {
@@ -916,6 +943,11 @@ func runConcConn(c *simkit.Choice, r *simkit.Rec) {
 						h.in = connIn{0, buf}
 						h.call = int64(s.Seq())
 						n, err := conn.Write([]byte(buf))
+						if boosted {
+							s.Unboost()
+							boosted = false
+						}
+						lateGo.Set()
 						a.LiftWindows() // the slow-peer phase ends with the first completed application call
 						h.out = connOut{err: err != nil}
 						h.ret = int64(s.Seq())
@@ -942,6 +974,7 @@ func runConcConn(c *simkit.Choice, r *simkit.Rec) {
 						h.in = connIn{kind: 1}
 						h.call = int64(s.Seq())
 						n, err := conn.Read(buf)
+						lateGo.Set() // (whatever became of the handshake, nobody waits for it any longer)
 						a.LiftWindows()
 						h.ret = int64(s.Seq())
 						switch {
@@ -1090,6 +1123,27 @@ func runConcConn(c *simkit.Choice, r *simkit.Rec) {
 		}
 		r.Violate("deadlock", site, fmt.Sprintf("no task can run: %v", s.Blocked))
 		return
+	}
+	// without a Close/CloseWrite racing the traffic and without corruption in
+	// transit nothing can legitimately fail: every Write succeeds, every Read
+	// returns data or a clean end of stream
+	if !closer && !halfCloser && !(corrupt && b.WrPipe().Flipped) && hsErr[0] == nil && hsErr[1] == nil {
+		for d := 0; d < 2; d++ {
+			for i := 0; i < nhist[d]; i++ {
+				h := hist[d][i]
+				if h.ret != 0 && h.out.err && h.in.kind != 2 {
+					what := "Write"
+					if h.in.kind == 1 {
+						what = "Read"
+					}
+					r.Violate("unexplained-error", site, fmt.Sprintf("direction %d: a %s returned an error although nobody closed the connection and nothing was damaged in transit (late writer=%v, blocking transport=%v)", d, what, lateWriter, netS.Window > 0))
+					return
+				}
+			}
+		}
+	}
+	if lateFired.Load() {
+		r.Reach(idx(concReach, "conn-write-inside-last-flight"))
 	}
 	model := pipeModel()
 	for d := 0; d < 2; d++ {
